@@ -1,6 +1,7 @@
 package main
 
 import (
+	"regexp"
 	"golang.org/x/tools/go/ssa"
 	"fmt"
 	"go/ast"
@@ -13,6 +14,7 @@ import (
 
 // Env evaluates contract expressions to SMT terms in a pair of states.
 type Env struct {
+	exDepth int // nesting depth of existential goals being given candidate witnesses
 	locals bool // identifiers may resolve to locals of the function under translation (topEnv only)
 	tr       *Trans
 	pre      *State
@@ -550,7 +552,10 @@ func (env *Env) binary(x *ast.BinaryExpr) Val {
 		if r, ok := tr.bitop(x.Op, A, B, tInt); ok {
 			return Val{T: tInt, C: []Term{r}}
 		}
-		return env.fail("bit operation needs a constant operand: %s", exprString(x))
+		// two variable operands: the same uninterpreted function the code translation uses, so a spec can restate a
+		// bit-level guard of the code (its arithmetic meaning is then Go's, not modelled)
+		f := tr.e.declareFun("bit$"+x.Op.String(), []Sort{SInt, SInt}, SInt)
+		return Val{T: tInt, C: []Term{{fmt.Sprintf("(%s %s %s)", f, A.S, B.S), SInt}}}
 	case token.SHL:
 		if bits, ok := constBits(B.S); ok {
 			var k uint
@@ -636,7 +641,27 @@ func (env *Env) callExpr(x *ast.CallExpr) Val {
 		if name == "__exists" {
 			q = "exists"
 		}
-		return Val{T: tBool, C: []Term{{fmt.Sprintf("(%s ((%s Int)) %s)", q, bv.S, body.C[0].S), SBool}}}
+		qt := Term{fmt.Sprintf("(%s ((%s Int)) %s)", q, bv.S, body.C[0].S), SBool}
+		if name == "__exists" && env.pol == 1 && env.mode == 1 && tr.e.quiet == 0 && env.exDepth < 2 && len(tr.g.recentIdx) > 0 {
+			// an existential goal: besides the quantified form, offer the indices the code itself used most recently as
+			// candidate witnesses (each instance implies the existential, so the goal is not weakened); arithmetic in the
+			// element address defeats the solvers' own trigger matching here
+			env.exDepth++
+			alts := []Term{qt}
+			for _, c := range tr.g.recentIdx {
+				saved, had := env.vars[id.Name]
+				env.vars[id.Name] = Val{T: tInt, C: []Term{c}}
+				alts = append(alts, env.evalBool(x.Args[1]))
+				if had {
+					env.vars[id.Name] = saved
+				} else {
+					delete(env.vars, id.Name)
+				}
+			}
+			env.exDepth--
+			return Val{T: tBool, C: []Term{or(alts...)}}
+		}
+		return Val{T: tBool, C: []Term{qt}}
 	case "len":
 		v := env.eval(x.Args[0])
 		switch u := under(v.T).(type) {
@@ -984,7 +1009,7 @@ func astHasForall(e ast.Expr) bool {
 	found := false
 	ast.Inspect(e, func(n ast.Node) bool {
 		if c, ok := n.(*ast.CallExpr); ok {
-			if id, ok := c.Fun.(*ast.Ident); ok && id.Name == "__forall" {
+			if id, ok := c.Fun.(*ast.Ident); ok && (id.Name == "__forall" || id.Name == "__exists") {
 				found = true
 			}
 		}
@@ -1022,6 +1047,8 @@ func (tr *Trans) assumeClause(env *Env, cond Term, e ast.Expr) {
 	}
 }
 
+var boundNameRe = regexp.MustCompile(`!q\d+_\d+`)
+
 // goalClause evaluates a clause as a proof goal: positive foralls become fresh constants, and every registered
 // quantified hypothesis is instantiated at those constants (returned as extra assumptions for this obligation).
 func (tr *Trans) goalClause(env *Env, e ast.Expr) (Term, []Term) {
@@ -1056,9 +1083,17 @@ func (tr *Trans) goalClause(env *Env, e ast.Expr) (Term, []Term) {
 	for _, ix := range tr.g.recentIdx {
 		addPoint(ix)
 	}
+	// instances that do not depend on the point (hypotheses whose quantifiers are existential) would be repeated once
+	// per point under fresh bound-variable names: keep one copy of each
+	seenExtra := map[string]bool{}
 	for _, idx := range points {
 		for _, h := range tr.g.hyps {
 			if x := h(idx); x.S != "true" {
+				key := boundNameRe.ReplaceAllString(x.S, "!q")
+				if seenExtra[key] {
+					continue
+				}
+				seenExtra[key] = true
 				extra = append(extra, x)
 			}
 		}
@@ -1078,7 +1113,7 @@ func (g *Gen) specsHaveQuantPred(e ast.Expr) bool {
 		ast.Inspect(e, func(n ast.Node) bool {
 			if c, ok := n.(*ast.CallExpr); ok {
 				if id, ok := c.Fun.(*ast.Ident); ok {
-					if id.Name == "__forall" {
+					if id.Name == "__forall" || id.Name == "__exists" {
 						found = true
 					} else if p, ok := g.specs.Preds[id.Name]; ok && !p.Opaque {
 						visit(p.Body, depth+1)
